@@ -247,9 +247,9 @@ def rule_align_pack(chk, prog, tier):
             b.f[('type',)] = t; b.f[('last',)] = Ptr(t.obj, ('u', 'structunion', 'members')); b.f[('bits',)] = 0; b.f[('pack',)] = int(pack)
             it.models.update({'xmalloc': lambda i2, a, e: Ptr(Obj('m', 'heap'), ()), 'error': lambda i2, a, e: (_ for _ in ()).throw(Terminal('error', cmodel.fmt_of(i2, a, 1)))})
             offs = []
-            for ty, wd, named, al in seq:
+            for mi, (ty, wd, named, al) in enumerate(seq):
                 mt = StructVal({('type',): w.t(ty), ('qual',): 0, ('expr',): None})
-                it.call(fn, [Ptr(b, ()), mt, Ptr(it.mkstr(list(b'm'), 'm'), (0,)), al, 2 ** 64 - 1])
+                it.call(fn, [Ptr(b, ()), mt, Ptr(it.mkstr(list(b'm%d' % mi), 'm'), (0,)), al, 2 ** 64 - 1])
             m = t.obj.f[('u', 'structunion', 'members')]
             while m is not None:
                 offs.append(m.obj.f[('offset',)] * 8); m = m.obj.f.get(('next',))
